@@ -408,16 +408,12 @@ Proof.
         -- lia.
       * intros k. cbn [nf_delta_of]. rewrite Hst, Hsur. unfold lot_of. rewrite CL. reflexivity.
       * intros d. cbn [coin_delta_of fst snd]. rewrite Hst, Hsur. unfold lot_of. rewrite CL. reflexivity.
-  - (* v2 surplus close *)
-    unfold v2_surplus_close. intros H. apply obind_ok in H. destruct H as (s1 & H1 & H2).
-    apply obind_ok in H2. destruct H2 as (s2 & H2 & H3).
-    eapply effok_of_seff with (app := app) (asset := asset) (dl := lot) (dn := asset) (db := - lot); [|reflexivity|reflexivity].
-    eapply ceff_eq; [eapply ceff_trans; [eapply ceff_trans|]|..].
-    + eapply seff_lift; [exact H1|]. intros c Hc. exact (ceff_csend _ _ _ _ _ _ (app, asset) Hc).
-    + eapply seff_lift; [exact H2|]. intros c Hc. exact (ceff_set_net_fee _ _ _ _ _ asset Hc).
-    + destruct (amp (cs s2) (app, asset)); [|discriminate]. exact (seff_mapping _ _ _ _ _ (app, asset) asset H3).
-    + lia.
-    + cbn; lia.
+  - (* v2 surplus close: nothing of the collector moves *)
+    unfold v2_surplus_close. intros H.
+    eapply effok_of_seff with (app := app) (asset := asset) (dl := 0) (dn := asset) (db := 0).
+    + destruct (amp (cs s) (app, asset)); [|discriminate]. exact (seff_mapping _ _ _ _ _ (app, asset) asset H).
+    + intros k. cbn [nf_delta_of nf_delta_spec]. unfold at_key. destruct (keq _ _); reflexivity.
+    + reflexivity.
   - (* v2 debt close *)
     unfold v2_debt_close. intros H. apply obind_ok in H. destruct H as (s1 & H1 & H2).
     apply obind_ok in H2. destruct H2 as (s2 & H2 & H3).
@@ -765,11 +761,8 @@ Proof.
   - exists app, asset, (if started s s' app asset && af_surplus (flags_of s app asset) then - lot_of s app asset else 0),
       (if started s s' app asset && af_surplus (flags_of s app asset) then - lot_of s app asset else 0).
     repeat split; try lia; reflexivity.
-  - (* v2 surplus close outside the class: lot = 0 *)
-    cbn [step] in H. unfold v2_surplus_close in H. apply obind_ok in H. destruct H as (s1 & H1 & _).
-    apply lift_ok in H1. destruct H1 as (c & H1 & _). pose proof (csend_amount_nonneg _ _ _ _ _ _ H1) as Hl.
-    unfold kf_C13_any in Hk. cbn in Hk. assert (lot = 0) by lia. subst lot.
-    exists app, asset, 0, 0. repeat split; try lia; reflexivity.
+  - (* v2 surplus close *)
+    exists app, asset, 0, 0. repeat split; try lia; try reflexivity. intros k; unfold at_key; destruct (keq _ _); reflexivity.
   - (* v2 debt close: DebtToken is in the denom of the collector asset (valid_op); its amount is booked *)
     cbn in Hv. assert (debt_denom = asset) as -> by lia.
     exists app, asset, debt_amt, debt_amt. repeat split; try lia; reflexivity.
@@ -803,13 +796,13 @@ Qed.
 (* ---- histories ---- *)
 Definition kf_free (o : op) : bool := negb (kf_C13_any o).
 
-Lemma run_cinv ops : forall s, CInv s -> forallb valid_op ops = true -> forallb kf_free ops = true -> CInv (run s ops).
+Lemma run_cinv ops : forall s, CInv s -> forallb valid_op ops = true -> CInv (run s ops).
 Proof.
-  induction ops as [|o ops IH]; intros s HC Hv Hk; [exact HC|].
-  cbn in Hv, Hk. apply andb_true_iff in Hv. destruct Hv as (Hv1 & Hv2). apply andb_true_iff in Hk. destruct Hk as (Hk1 & Hk2).
-  unfold run. cbn [fold_left]. apply IH; [|exact Hv2|exact Hk2].
+  induction ops as [|o ops IH]; intros s HC Hv; [exact HC|].
+  cbn [forallb] in Hv. apply andb_true_iff in Hv. destruct Hv as (Hv1 & Hv2).
+  unfold run. cbn [fold_left]. apply IH; [|exact Hv2].
   unfold apply_step. destruct (step s o) as [s'| |] eqn:E; [|exact HC|exact HC].
-  apply (step_cinv s o s' Hv1); [unfold kf_free in Hk1; destruct (kf_C13_any o); [discriminate|reflexivity]|exact HC|exact E].
+  exact (step_cinv s o s' Hv1 eq_refl HC E).
 Qed.
 
 Lemma run_nonneg ops : forall s, NfNonneg (cs s) -> forallb valid_op ops = true -> NfNonneg (cs (run s ops)).
@@ -975,7 +968,7 @@ Definition ex_ops : list op :=
     LWithdraw 1 1 2 2 300000 2000000000000000000; V1SurplusStart 1 2; V1SurplusClose 1 2 500 false false;
     GetAmount 1 2 100; LClose 0 1 2 1 0; UpdLookup 1 2 50000000000000000 1000 500 500 500 [4200000000000000000] ].
 
-(* the witnesses of the three known-finding classes *)
+(* the witnesses of the three former known-finding classes (all repaired) *)
 Definition ex_kf1_ops : list op := [ V2Penalty 1 2 3 120000 ].
 Definition ex_kf2_ops : list op :=
   [ AddLookup 1 2 3 0 1000 500 500 500; SetFlags 1 2 true false false; FeeIn 1 2 2000 false; V2CheckStats 1 2; V2SurplusClose 1 2 500 ].
@@ -989,9 +982,6 @@ Definition ex_ops2 : list op :=
   [ V2TriggerEsm 1 3 5000 1200; V2TriggerEsm 1 3 700 1200; CDeposit 0 2 3 25000000000 false;
     FeeIn 1 2 900 false; EsmRedeem 1 true [(2, 0); (3, 1)]; EsmRedeem 2 true [(3, 1)] ].
 
-Definition last_kf (kf : op -> bool) (ops : list op) : bool :=
-  match rev ops with o :: r => kf o && forallb kf_free r | [] => false end.
-
 (* the former witness of C13-F1 (repaired): the penalty is booked where its coins are *)
 Lemma kf1_regression :
   forallb valid_op ex_kf1_ops = true /\ forallb kf_free ex_kf1_ops = true /\
@@ -1000,11 +990,13 @@ Lemma kf1_regression :
   nf_val (cs (run ex_genesis ex_kf1_ops)) 1 3 = 120000 /\ nf_val (cs (run ex_genesis ex_kf1_ops)) 1 2 = 0.
 Proof. vm_compute. repeat split. Qed.
 
-Lemma kf2_refuted :
-  forallb valid_op ex_kf2_ops = true /\ last_kf kf_C13_2 ex_kf2_ops = true /\
-  holds_C13_backed [1; 2] [1; 2; 3] (run ex_genesis (removelast ex_kf2_ops)) = true /\
-  holds_C13_backed [1; 2] [1; 2; 3] (run ex_genesis ex_kf2_ops) = false /\
-  holds_C13_flow [1; 2] [1; 2; 3] (run ex_genesis (removelast ex_kf2_ops)) (V2SurplusClose 1 2 500) (run ex_genesis ex_kf2_ops) = false.
+(* the former witness of C13-F2 (repaired): the start takes the lot (500) out of coins and books, the close
+   moves neither: 1500 coins against 1500 on the books *)
+Lemma kf2_regression :
+  forallb valid_op ex_kf2_ops = true /\
+  holds_C13_backed [1; 2] [1; 2; 3] (run ex_genesis ex_kf2_ops) = true /\
+  holds_C13_flow [1; 2] [1; 2; 3] (run ex_genesis (removelast ex_kf2_ops)) (V2SurplusClose 1 2 500) (run ex_genesis ex_kf2_ops) = true /\
+  nf_val (cs (run ex_genesis ex_kf2_ops)) 1 2 = 1500 /\ bnk (cs (run ex_genesis ex_kf2_ops)) (A_COLLECTOR, 2) = 1500.
 Proof. vm_compute. repeat split. Qed.
 
 (* the former witness of C13-F3 (repaired): DebtToken.Amount = 500 is booked for the 500 that arrive *)
@@ -1015,20 +1007,24 @@ Lemma kf3_regression :
   nf_val (cs (run ex_genesis ex_kf3_ops)) 1 2 = 500 /\ bnk (cs (run ex_genesis ex_kf3_ops)) (A_COLLECTOR, 2) = 500.
 Proof. vm_compute. repeat split. Qed.
 
-(* C13-F2 poisons the savings-rate change: once the surplus close has left the collector with fewer
-   coins than the books say, collector.LockerIterateRewards lowers the books (DecreaseNetFeeCollectedData
-   succeeds), fails to pay (`continue`) and leaves the locker uncredited - the books fall by 3 with
-   nothing paid out *)
+(* the former consequence of C13-F2 for the savings-rate change (repaired): after a generation-2 surplus
+   auction and a debt cover that leaves 502 coins for 502 on the books, collector.LockerIterateRewards
+   lowers the books by the reward (3), pays it and credits the locker (before the fix: 2 coins against
+   1002 on the books, books lowered, nothing paid, `continue`) *)
 Definition ex_kf2_rate_ops : list op :=
   [ AddLookup 1 2 3 100000000000000000 1000 500 500 500; WlLocker 1 2; WlReward 1 2; SetFlags 1 2 true false false;
     LCreate 0 1 2 1000000; FeeIn 1 2 2000 false; V2CheckStats 1 2; V2SurplusClose 1 2 500; GetAmount 1 2 998;
     UpdLookup 1 2 50000000000000000 1000 500 500 500 [3500000000000000000] ].
 
-Lemma kf2_rate_change_unpaid :
+Lemma kf2_rate_change_regression :
   let s := run ex_genesis (removelast ex_kf2_rate_ops) in let s' := run ex_genesis ex_kf2_rate_ops in
-  forallb valid_op ex_kf2_rate_ops = true /\ forallb kf_free ex_kf2_rate_ops = false /\
-  bnk (cs s) (A_COLLECTOR, 2) = 2 /\ nf_val (cs s) 1 2 = 1002 /\
-  nf_val (cs s') 1 2 = 999 /\ bnk (cs s') (A_COLLECTOR, 2) = 2 /\
-  net_sum (lockers_of s' 1 2) = net_sum (lockers_of s 1 2) /\
-  holds_C13_flow [1; 2] [1; 2; 3] s (UpdLookup 1 2 50000000000000000 1000 500 500 500 [3500000000000000000]) s' = false.
+  forallb valid_op ex_kf2_rate_ops = true /\
+  bnk (cs s) (A_COLLECTOR, 2) = 502 /\ nf_val (cs s) 1 2 = 502 /\
+  nf_val (cs s') 1 2 = 499 /\ bnk (cs s') (A_COLLECTOR, 2) = 499 /\
+  net_sum (lockers_of s' 1 2) = net_sum (lockers_of s 1 2) + 3 /\
+  holds_C13_flow [1; 2] [1; 2; 3] s (UpdLookup 1 2 50000000000000000 1000 500 500 500 [3500000000000000000]) s' = true.
 Proof. vm_compute. repeat split. Qed.
+
+(* no class is left: every history is outside *)
+Lemma kf_free_all ops : forallb kf_free ops = true.
+Proof. induction ops as [|o ops IH]; [reflexivity|]. cbn [forallb]. rewrite IH. reflexivity. Qed.
